@@ -100,6 +100,8 @@ func (s vTimeSource) AdjustedTime() time.Time              { return s.t }
 func (s vTimeSource) AddTimeSample(string, time.Time)       {}
 func (s vTimeSource) Offset() time.Duration                 { return 0 }
 
+// C12(5): the template timestamp is max(adjusted clock, median time past + 1s) for every clock reading and median:
+// never at or before the median time past, which consensus would reject.
 //verif:opts reach=end
 func VH_median_adjusted_time() {
 	mtp := vNondetI64("mtp")
